@@ -360,7 +360,10 @@ def kron_harness(an, dim):
         Ms = [sx.symarray('M%d' % k, (sizes[k], sizes[k])) for k in range(dim)]
         Ks = [sx.symarray('K%d' % k, (sizes[k], sizes[k])) for k in range(dim)]
         class KV:
-            def __init__(self, k): self.k = k
+            # stand-in with the public attributes of a KnotVector that do not determine the 1D matrices: equal degree, size and end
+            # points on axes 0 and 2 (different interior knots -- the 1D matrices of the axes are independent symbols)
+            def __init__(self, k): self.k = k; self.p = 2; self.numdofs = sizes[k]; self.numknots = sizes[k] + 3; self.numspans = sizes[k] - 2
+            def support(self, j=None): return (0.0, 1.0)
         kvs = tuple(KV(k) for k in range(dim))
         g = an['bsp_mass_2d'].__globals__          # the namespace the encoded functions resolve their callees in
         g['bsp_mass_1d'] = lambda kv, weightfunc=None: SpMat(Ms[kv.k], 'csr')
@@ -542,6 +545,13 @@ elif kind == 'kron':
     if not np.allclose(assemble.bsp_stiffness_2d(kvs2).toarray(), kr(K[0], M[1]) + kr(M[0], K[1])): bad.append('bsp_stiffness_2d')
     if not np.allclose(assemble.bsp_mass_3d(kvs3).toarray(), kr(M[0], M[1], M[2])): bad.append('bsp_mass_3d')
     if not np.allclose(assemble.bsp_stiffness_3d(kvs3).toarray(), kr(K[0], M[1], M[2]) + kr(M[0], K[1], M[2]) + kr(M[0], M[1], K[2])): bad.append('bsp_stiffness_3d')
+    # equal degree, size and end points on two axes, different interior knots
+    kvg = (kvf(2, [0, 0.5, 1], [1]), kvf(2, [0, 0.25, 1], [1]), kvf(2, [0, 0.75, 1], [2]))
+    Mg = [assemble.bsp_mass_1d(k).toarray() for k in kvg]; Kg = [assemble.bsp_stiffness_1d(k).toarray() for k in kvg]
+    if not np.allclose(assemble.bsp_mass_2d(kvg[:2]).toarray(), kr(Mg[0], Mg[1])): bad.append('bsp_mass_2d (graded axes)')
+    if not np.allclose(assemble.bsp_stiffness_2d(kvg[:2]).toarray(), kr(Kg[0], Mg[1]) + kr(Mg[0], Kg[1])): bad.append('bsp_stiffness_2d (graded axes)')
+    if not np.allclose(assemble.bsp_mass_3d(kvg).toarray(), kr(Mg[0], Mg[1], Mg[2])): bad.append('bsp_mass_3d (graded axes)')
+    if not np.allclose(assemble.bsp_stiffness_3d(kvg).toarray(), kr(Kg[0], Mg[1], Mg[2]) + kr(Mg[0], Kg[1], Mg[2]) + kr(Mg[0], Mg[1], Kg[2])): bad.append('bsp_stiffness_3d (graded axes)')
 elif kind == 'closed':
     for d in (2, 3):
         X = rng.rand(2, 3, d, d) if d == 2 else rng.rand(2, 1, 2, d, d)
